@@ -4,7 +4,7 @@
 From Verif Require Import Base.Prelude Gen.ParseLitGen Model.Tree Model.Spec Model.Rewrite Model.ParseLit Model.CharClass Model.Parser
   Model.FinalOpt
   Proofs.SpecProofs Proofs.SpecBoundsProofs Proofs.SpecTermProofs Proofs.RewriteProofs
-  Proofs.FinalOptDen Proofs.FinalOptK Proofs.FinalOptLink Proofs.FinalOptLeaf Proofs.FinalOptWalk Proofs.FinalOptAtomic.
+  Proofs.FinalOptDen Proofs.FinalOptK Proofs.FinalOptPrune Proofs.FinalOptLink Proofs.FinalOptLeaf Proofs.FinalOptWalk Proofs.FinalOptAtomic.
 From Coq Require Import ZifyBool.
 
 Section DenRel.
@@ -400,7 +400,9 @@ Section EE.
 Variable g strict : Z.
 Hypothesis Hg8 : fo_gate g 8 = true.
 Hypothesis Hg16 : fo_gate g 16 = true.
-Hypothesis Hs3 : Z.testbit strict 3 = true.
+Hypothesis HS0 : Z.testbit strict 0 = true.
+Hypothesis HS1 : Z.testbit strict 1 = true.
+Hypothesis HS2 : Z.testbit strict 2 = true.
 
 Definition ee_spec (node node' : rnode) : Prop :=
   node_ok node' /\ rw_hrefines e (tr node) (tr node') /\
@@ -420,8 +422,8 @@ Proof.
   - rewrite (clr_same x (proj1 Hok) E). split; [exact Hok | apply rw_refines_refl].
 Qed.
 
-Lemma fo_loop_last_none nd k : fo_loop_last (Z.testbit strict 3) strict nd k = Ok None.
-Proof. unfold fo_loop_last. rewrite Hs3. reflexivity. Qed.
+Lemma pos_only_NQ n : pos_only (NQ cat_in e n).
+Proof. intros a b Hp [H1 H2]. unfold NQ. rewrite <- Hp. split; assumption. Qed.
 
 Lemma set_mn_fields x m n : n_t (set_mn x m n) = n_t x /\ n_o (set_mn x m n) = n_o x /\ n_m (set_mn x m n) = m /\
   n_n (set_mn x m n) = n /\ n_kids (set_mn x m n) = n_kids x /\ n_set (set_mn x m n) = n_set x /\ n_str (set_mn x m n) = n_str x.
@@ -556,7 +558,7 @@ Proof.
   induction f as [|f [IHE IHR]]; [split; intros; discriminate|].
   assert (HE : forall par node node', fo_ee cat_in isw isew (S f) g strict true par node = Ok node' -> node_ok node -> ee_spec node node').
   { intros par node node' H Hok. rewrite fo_ee_S in H.
-    destruct (fo_gate g 2); [injection H as <-; split; [exact Hok|]; split; [apply rw_hrefines_refl | intros _; repeat split; reflexivity]|].
+    destruct (fo_gate g 2) eqn:Eg2; [injection H as <-; split; [exact Hok|]; split; [apply rw_hrefines_refl | intros _; repeat split; reflexivity]|].
     cbv zeta in H.
     destruct (fo_is_charloop (n_t node) || fo_is_charlazy (n_t node)) eqn:Ecl.
     { injection H as <-. split; [apply node_ok_mla; assumption|]. split; [apply mla_hrefines; assumption|].
@@ -707,7 +709,45 @@ Proof.
           rewrite Ho', Hm', Hn'. replace (n_n nd) with 1 by lia. apply loop_one_tail; assumption.
         + rewrite (tr_lazyloop sid nd k Etl Ek), (tr_lazyloop sid (set_kids nd [k']) k') by (first [exact Hk2 | rewrite Ht'; exact Etl]).
           rewrite Ho', Hm', Hn'. replace (n_n nd) with 1 by lia. apply loop_one_tail; assumption.
-      - rewrite fo_loop_last_none in Hr. cbn [bind] in Hr. injection Hr as <-. split; [exact Hnd | apply rw_hrefines_refl]. }
+      - (* FindLastExpressionInLoopForAutoAtomic: the last child of the body, disjoint from the body's first child *)
+        unfold fo_loop_last in Hr.
+        destruct (Z.testbit strict 3); [cbn [bind] in Hr; injection Hr as <-; split; [exact Hnd | apply rw_hrefines_refl]|].
+        destruct (kids_one nd ltac:(unfold T_Loop, T_Lazyloop in *; lia) (proj1 Hnd)) as [b Eb]. rewrite Eb in Hr.
+        set (k0 := fun first lastc : rnode =>
+                     do b <- fo_cbma cat_in isw isew f strict lastc first [] false false false ;
+                     if b then (do l' <- fo_ee cat_in isw isew f g strict true false lastc ; Ok (Some l')) else Ok None) in Hr.
+        destruct (fo_body_last strict b k0) as [r| | |] eqn:Er; cbn [bind] in Hr; try discriminate.
+        destruct r as [b'|]; [|injection Hr as <-; split; [exact Hnd | apply rw_hrefines_refl]].
+        injection Hr as <-.
+        assert (Hb : node_ok b) by (apply (node_ok_kid sets nd); [exact Hnd | rewrite Eb; left; reflexivity]).
+        destruct (body_last_sound sid e sets strict HS0 HS1 HS2 k0 b b' Er Hb) as (first & lastc & l' & Hk & Hf & Hl & Hokb & _ & _ & Hd' & Hpr).
+        unfold k0 in Hk.
+        destruct (fo_cbma cat_in isw isew f strict lastc first [] false false false) as [bb| | |] eqn:Ecb; cbn [bind] in Hk; try discriminate.
+        destruct bb; [|discriminate].
+        destruct (fo_ee cat_in isw isew f g strict true false lastc) as [l2| | |] eqn:Eee; cbn [bind] in Hk; try discriminate.
+        injection Hk as <-.
+        pose proof (cbma_true_greedy cat_in isw isew sid e sets strict HS0 HS1 HS2 _ _ _ _ _ _ Ecb Hf (Forall_nil _)) as Hgr.
+        pose proof (cbma_true_ltr cat_in isw isew strict _ _ _ _ _ _ _ Ecb) as Hltr.
+        assert (El2 : l2 = make_loop_atomic lastc).
+        { clear -Eee Eg2 Hgr. destruct f as [|f']; [discriminate|]. rewrite fo_ee_S, Eg2 in Eee. cbv zeta in Eee.
+          rewrite Hgr in Eee. cbn [orb] in Eee. injection Eee as <-. reflexivity. }
+        subst l2.
+        assert (Hl2 : node_ok (make_loop_atomic lastc)) by (apply (node_ok_mla_greedy sets strict HS0 HS1 HS2); assumption).
+        destruct (set_kids_fields nd [b']) as (Ht' & Ho' & _ & Hm' & Hn' & _ & _ & Hk2).
+        split; [apply node_ok_set_kids; [exact Hnd | rewrite Eb; reflexivity | constructor; [apply Hokb; exact Hl2|constructor]]|].
+        pose proof (wf_loop_bounds strict HS0 HS1 HS2 nd (proj1 Hnd) ltac:(unfold T_Loop, T_Lazyloop in *; lia)) as Hbd.
+        assert (HH : forall lazy, rw_hrefines e (NLoop lazy (n_o nd) (n_m nd) (n_n nd) (tr b)) (NLoop lazy (n_o nd) (n_m nd) (n_n nd) (tr b'))).
+        { intros lazy. apply hrefines_den. intros s.
+          assert (Hlim : 0 <= loop_limit (n_m nd) (n_n nd)) by (apply loop_limit_nonneg; lia).
+          apply (proj2 (loop_hpr e (NQ cat_in e lastc) lazy (n_o nd) (n_m nd) (n_n nd) (tr b) (tr b')
+                   Hlim
+                   (Hpr _ (pos_only_NQ lastc) (mla_hpr cat_in isw isew sid e sets Henv strict HS0 HS1 HS2 lastc Hgr Hl Hltr))
+                   (fun q Hq => Hd' q (cbma_noiter_dead cat_in isw isew sid e sets Henv strict HS0 HS1 HS2 _ _ _ _ _ _ Ecb Hl Hf q Hq)) s)). }
+        destruct Htl as [Etl|Etl].
+        + rewrite (tr_loop sid nd b Etl Eb), (tr_loop sid (set_kids nd [b']) b') by (first [exact Hk2 | rewrite Ht'; exact Etl]).
+          rewrite Ho', Hm', Hn'. apply HH.
+        + rewrite (tr_lazyloop sid nd b Etl Eb), (tr_lazyloop sid (set_kids nd [b']) b') by (first [exact Hk2 | rewrite Ht'; exact Etl]).
+          rewrite Ho', Hm', Hn'. apply HH. }
     destruct (n_t node =? T_Lazyloop) eqn:Elz.
     { assert (Etl : n_t node = T_Lazyloop) by lia.
       destruct (kids_one node ltac:(unfold T_Lazyloop in *; lia) (proj1 Hok)) as [k Ek].
